@@ -165,7 +165,7 @@ var langHdr = regexp.MustCompile(`^lang\s+([A-Za-z_][A-Za-z0-9_]*)\s*=\s*([a-z]+
 
 var poolHdr = regexp.MustCompile(`^pool\s+([A-Za-z_][A-Za-z0-9_]*)\s+(\S+)\s*:\s*(.*)$`)
 
-var clauseKeywords = []string{"guarded", "usemethods", "typeinv", "noinv", "methods", "callsite", "func", "spec", "lemma", "lang", "pool", "interface", "implements", "let", "running", "assume", "requires", "ensures", "modifies", "loop", "use", "assert", "inline", "trusted", "pure"}
+var clauseKeywords = []string{"package", "guarded", "usemethods", "typeinv", "noinv", "methods", "callsite", "func", "spec", "lemma", "lang", "pool", "interface", "implements", "let", "running", "assume", "requires", "ensures", "modifies", "loop", "use", "assert", "inline", "trusted", "pure"}
 
 func startsKeyword(s string) string {
 	for _, k := range clauseKeywords {
@@ -414,6 +414,15 @@ func (cs *ContractSet) parse(src, file, pkgPath string) {
 			return &Clause{Props: props, Text: text, Expr: e, Line: rc.line, File: file}
 		}
 		switch kw {
+		case "package":
+			// package <import path>: the blocks that follow are contracts for that (external) package, assumed, never
+			// verified - e.g. the interface contract of a library's interface method
+			if f := strings.Fields(rest); len(f) == 1 {
+				pkgPath = f[0]
+			} else {
+				cs.errf(file, rc.line, "bad package directive %q", rc.text)
+			}
+			cur = nil
 		case "guarded":
 			// guarded <var> by <mutex>
 			f := strings.Fields(rest)
